@@ -174,6 +174,12 @@ def work_generic(prop, tier, seed, widx, nworkers):
                     case['store'] = True
                     case['write_once'] = False
                     case['gate_saves'] = rng.choice([0.5, 1.0])
+                if prop == 'C14' and rng.random() < 0.2:
+                    # an artifact store that raises at its k-th save (the event managers do not raise)
+                    case['store'] = True
+                    case['write_once'] = False
+                    case['collab_faults'] = [['save', rng.randint(0, max(1, len(prog['order']) - 1))]]
+                    acc.counters['store_fault_cases'] = acc.counters.get('store_fault_cases', 0) + 1
                 res = cases.run_case(case, built)
                 acc.add(case, res, nontrivial_feature=(feat is None or feat in fts))
                 if prop == 'C01':
